@@ -34,7 +34,7 @@ from ..harness import Disc, Sub
 
 PROPERTY = 'C08'
 LEVEL = 'exploration'
-RULE = ('Hypothesis draws a database of 2-7 content-free lexicons (ids a/ab/a-b/b/wn, versions '
+RULE = ('Hypothesis draws a database of 2-7 content-free lexicons (ids a/ab/a-b/b/wn/A, versions '
         '1/1.0/1.0+x/2-rc/10/2020, languages en/en-GB/es) built by a history: one resource per '
         'lexicon added in a drawn order, optionally wn.remove(id:version) followed by a re-add '
         '(immediately or after the remaining adds), optionally a final removal; the installed '
@@ -66,10 +66,11 @@ ASSUMPTIONS = [
     'verified against the model (installed list) before the case proceeds',
 ]
 
-IDS = ['a', 'ab', 'a-b', 'b', 'wn']
+IDS = ['a', 'ab', 'a-b', 'b', 'wn', 'A']     # 'A': ids differing only in case are distinct ids
 VERSIONS = ['1', '1.0', '1.0+x', '2-rc', '10', '2020']
 LANGS = ['en', 'en-GB', 'es']
 UNUSED_LANG = 'fr'
+_ID_WEIGHTED = ['a', 'a', 'a', 'ab', 'ab', 'a-b', 'a-b', 'b', 'wn', 'A']   # favour prefix pairs
 ABSENT_IDS = ['abc', 'w', 'a-']          # never installed (prefix / extension of pool ids)
 ABSENT_VERSIONS = ['3', '1.', '20']      # never installed
 META = '*?'
@@ -251,7 +252,7 @@ def _specifier(draw, ids, versions, pairs, list_weight=2, allow_none=1):
 
 @st.composite
 def _database(draw):
-    ids = draw(st.lists(st.sampled_from(IDS), min_size=1, max_size=4, unique=True))
+    ids = draw(st.lists(st.sampled_from(_ID_WEIGHTED), min_size=1, max_size=4, unique=True))
     pairs = draw(st.lists(st.tuples(st.sampled_from(ids), st.sampled_from(VERSIONS)),
                           min_size=2, max_size=7, unique=True))
     n = len(pairs)
@@ -322,14 +323,23 @@ def _db_tags(case, installed):
         tags.append('db:multi-version-id')
     if any(a != b and b.startswith(a) for a in ids for b in ids):
         tags.append('db:prefix-ids')
+    if any(a != b and a.lower() == b.lower() for a in ids for b in ids):
+        tags.append('db:ids-differing-in-case-only')
     if any(op == 'remove' for op, _ in case['history']):
         tags.append('db:history-with-removal')
     if len(installed) < len(case['lexicons']):
         tags.append('db:once-installed-lexicon-absent')
+    first_adds = []
+    for op, k in case['history']:
+        lx = tuple(case['lexicons'][k])
+        if op == 'add' and lx not in first_adds:
+            first_adds.append(lx)
+    if [lx for lx in first_adds if lx in installed] != installed:
+        tags.append('db:re-add-changed-recency-order')
     for i in multi:
         mine = [lx for lx in installed if lx[0] == i]
-        if mine[-1] != mine[0]:
-            tags.append('db:newest!=first-added')
+        if mine[-1] != [lx for lx in first_adds if lx in mine][-1]:
+            tags.append('db:newest-of-an-id-is-a-re-add')
         if mine[-1][1] != max(lx[1] for lx in mine):
             tags.append('db:newest!=greatest-version-string')
         if len({lx[2] for lx in mine}) > 1:
@@ -358,8 +368,10 @@ def _query_tags(spec, lang, installed, used_langs):
         for t in spec.split():
             if _token_class(t) == 'bare-id':
                 mine = [lx for lx in installed if lx[0] == t]
-                if len(mine) >= 2 and mine[-1] != mine[0]:
-                    tags.append('bare-id:newest!=first-added')
+                if len(mine) >= 2:
+                    tags.append('bare-id:several-versions')
+                if len({lx[2] for lx in mine}) >= 2 and lang is not None:
+                    tags.append('bare-id:several-languages+lang')
                 if any(lx[0] != t and lx[0].startswith(t) for lx in installed):
                     tags.append('bare-id:is-prefix-of-other-id')
     return tags, size == 'proper-subset'
@@ -543,8 +555,9 @@ _MUST_SELECT = ('spec:star', 'spec:bare-id', 'spec:id:ver', 'spec:id:star', 'spe
                 'list:bare-id+star', 'lang:none', 'lang:used', 'lang:unused',
                 'result:empty', 'result:all', 'result:proper-subset',
                 'db:multi-version-id', 'db:prefix-ids', 'db:history-with-removal',
-                'db:newest!=first-added', 'db:newest!=greatest-version-string',
-                'bare-id:newest!=first-added', 'bare-id:is-prefix-of-other-id')
+                'db:re-add-changed-recency-order', 'db:newest-of-an-id-is-a-re-add',
+                'db:newest!=greatest-version-string', 'db:ids-differing-in-case-only',
+                'bare-id:several-versions', 'bare-id:is-prefix-of-other-id')
 
 SUBS = [
     Sub('select', oracle_select, _classify,
@@ -555,5 +568,5 @@ SUBS = [
         strategy=lambda tier: _remove_cases(3 if tier == 'quick' else 5),
         budget={'quick': 150, 'thorough': 800}, sample=_sample, purge_every=20,
         require_tags=('spec:list', 'spec:bare-id', 'spec:glob', 'result:proper-subset',
-                      'db:newest!=first-added')),
+                      'bare-id:several-versions')),
 ]
